@@ -15,7 +15,13 @@ RULE = ("every text of the C03 corpus (short texts over representative line shap
         "so that str() - which drops comments and re-orders imports, keys and sections - writes a line at another physical "
         "position than it was read from: schemaless.loadConfigFile, str(), reload, str() again on the real code and "
         "on the model; an exception from str() or from the reload is a round-trip failure; non-trivial = accepted with at "
-        "least one key or section; distinct by text")
+        "least one key or section; distinct by text.  Directives: texts holding one %include / %define line (at the top, "
+        "between keys, inside sections, after closed sections and imports; also at a random line of random section trees) "
+        "handed to loadConfigFile(file, url) WITHOUT a url and WITH one (file: / http: URL, absolute path, bare and relative "
+        "name, with a query), the %include argument ranging over references that urljoin resolves to the url of the text "
+        "itself (last segment, './name', '../dir/name', the whole url, path-absolute and scheme-relative forms, '' + query) and "
+        "over other resources: every one must be refused (real and model), the same texts without the directive line are "
+        "accepted under that url and round-trip")
 
 HARD = [["k $$v"], ["k $$"], ["k a$$b$$"], ["%import a$$b"], ["k <v>"], ["k %v"], ["k #v"], ["k (v)"], ["k"], ["k", "k", "k x"],
         ["K v", "k w"], ["<A B>", "</a>"], ["<a/ >"], ["<a b/ >"], ["<a/ b>", "</a/>"], ["<a/ >", "</a/>"], ["<a b/ >", "</a>"], ["<x>", "<a/ >", "k v", "</a/>", "</x>"], ["<a>", "<b>", "<c>", "<d/>", "</c>", "</b>", "</a>"],
@@ -125,10 +131,12 @@ def model_struct(m, imports=None):
             "sections": [model_struct(x) for x in m[4]], "imports": list(imports) if imports is not None else []}
 
 
-def real_load(text):
+def real_load(text, url=None):
     import ZConfig
     from ZConfig import schemaless
     try:
+        if url is not None:
+            return ["ok", schemaless.loadConfigFile(io.StringIO(text), url)]
         return ["ok", schemaless.loadConfigFile(io.StringIO(text))]
     except ZConfig.ConfigurationError as e:
         return ["cfg", type(e).__name__]
@@ -190,6 +198,124 @@ def round_trip(ctx, t, cfg, s1, stream=None):
         ctx.violate("serialising the reload gives a different text", {"stream": stream, "lines": t, "str": s1, "str2": s2[1]}, signature="C17:unstable:" + cls)
 
 
+# ---- %define / %include are refused, whatever url the text is loaded under and whatever the %include argument resolves to.
+# loadConfigFile(file, url) takes the url of the resource; the parser resolves every %include argument against it BEFORE the
+# schema-less context gets to refuse the directive - the references of interest are those that resolve to a place the loader
+# "knows" already: the url of the text itself, written in every way urljoin maps back to it
+DIRECTIVE_URLS = [None, "file:///etc/app/site.conf", "site.conf", "/etc/app/site.conf", "conf.d/site.conf",
+                  "http://example.org/etc/site.conf", "file:///etc/app/site.conf?rev=2", "file:///etc/my%20app/Site.conf"]
+
+
+def include_refs(url):
+    """references written in a text loaded under `url`: every spelling that may resolve to the url itself, and others"""
+    import urllib.parse
+    refs = ["other.conf", "site.conf", "./site.conf", "sub/site.conf", "../site.conf", "site.conf.bak", "SITE.CONF", "site.conf#part",
+            "/etc/app/site.conf", "file:///etc/app/site.conf", "file:/etc/app/site.conf"]
+    if url is not None:
+        sp = urllib.parse.urlsplit(url)
+        segs = sp.path.split("/")
+        last = segs[-1]
+        q = "?" + sp.query if sp.query else ""
+        refs += [url, last + q, "./" + last + q, q or last]
+        if len(segs) >= 2 and segs[-2] not in ("", ".", ".."):
+            refs += ["../" + segs[-2] + "/" + last + q, "./../" + segs[-2] + "/./" + last + q]
+        if sp.path.startswith("/"):
+            refs += [sp.path + q]
+        if sp.netloc:
+            refs += ["//" + sp.netloc + sp.path + q]
+    out = []
+    for r in refs:
+        if r and r not in out:
+            out.append(r)
+    return out
+
+
+def resolves_to_self(url, ref):
+    """(evidence only) urljoin maps the reference back to the url of the text"""
+    import urllib.parse
+    if url is None:
+        return False
+    try:
+        return urllib.parse.urljoin(url, ref) == url
+    except ValueError:
+        return False
+
+
+# (lines before the directive, indentation of the directive, lines after it); each frame is an accepted text without the directive
+DIRECTIVE_FRAMES = [([], "", []), ([], "", ["key value"]), (["key value"], "", []), (["k v", "k w"], "", ["j x"]),
+                    (["<server main>"], "  ", ["  port 80", "</server>"]), (["<a>", "  <b>"], "    ", ["  </b>", "</a>"]),
+                    (["<s/>"], "", []), (["%import p.q"], "", ["k v"]), (["# c", ""], "\t", []),
+                    (["<s>", "  k v", "</s>"], "", ["<t/>"]), (["<s>", "  k v"], "  ", ["</s>", "z 1"])]
+
+
+def directive_cases():
+    """(url, lines, directive line or None, kind): directed cases, smallest first; kind None = the control without directive"""
+    out = []
+    for url in DIRECTIVE_URLS:
+        for pre, ind, post in DIRECTIVE_FRAMES:
+            out.append((url, pre + post, None, None))
+        ds = [("include", "%include " + r) for r in include_refs(url)]
+        ds += [("include", "%include\t" + r + "  ") for r in include_refs(url)[:2] + include_refs(url)[-3:]]
+        ds += [("define", "%define a b"), ("define", "%define a"), ("define", "%define Site.conf site.conf")]
+        for kind, d in ds:
+            for pre, ind, post in DIRECTIVE_FRAMES:
+                out.append((url, pre + [ind + d] + post, d, kind))
+    return out
+
+
+def random_directive_case(rng):
+    """a random section tree (an accepted text) with one directive line at a random position, under a random url"""
+    url = rng.choice(DIRECTIVE_URLS)
+    ls = random_tree_text(rng)
+    if rng.random() < 0.8:
+        kind, d = "include", "%include" + rng.choice([" ", "  ", "\t"]) + rng.choice(include_refs(url))
+    else:
+        kind, d = "define", "%define " + rng.choice(["a", "a b", "A $$b", "site.conf x"])
+    i = rng.randint(0, len(ls))
+    near = ls[i] if i < len(ls) else ls[-1]
+    return (url, ls[:i] + [near[:len(near) - len(near.lstrip())] + d] + ls[i:], d, kind)
+
+
+def run_directives(ctx):
+    cases = directive_cases() + [random_directive_case(ctx.rng) for _ in range(6000 if ctx.thorough() else 600)]
+    ans = core.driver_batch([[Atom("schemaless"), url, t] for url, t, _, _ in cases]) if ctx.driver_ok else [None] * len(cases)
+    for (url, t, d, kind), a in zip(cases, ans):
+        text = "".join(l + "\n" for l in t)
+        r = real_load(text, url)
+        ctx.evaluations += 1
+        ctx.count("stream:directives")
+        ctx.count("directives:url:" + ("none" if url is None else "absolute" if ":" in url or url.startswith("/") else "relative"))
+        mk = None
+        if a is not None:
+            mk = "ok" if a[0] == "ok" else "refused" if (a[0] == "internal" and a[1] == "NotImplementedError") else str(a[0])
+            if mk != r[0]:
+                ctx.disagree("schemaless-load-with-url", [url, t], r[:2] if r[0] != "ok" else "ok", a[:2] if a[0] != "ok" else "ok")
+        if d is None:
+            # control: the frame without the directive is accepted under that url, equals the model, and round-trips
+            ctx.count("directives:control:" + r[0])
+            if r[0] == "ok":
+                s1 = real_str(r[1])
+                if mk == "ok":
+                    ms = model_struct(a[1], a[2])
+                    if ms != sec_struct(r[1]):
+                        ctx.disagree("schemaless-tree-with-url", [url, t], sec_struct(r[1]), ms)
+                    elif s1[0] != "ok" or a[3] != s1[1]:
+                        ctx.disagree("schemaless-str-with-url", [url, t], s1, a[3])
+                round_trip(ctx, t, r[1], s1, "directives-control")
+            continue
+        self_ref = kind == "include" and resolves_to_self(url, d.split(None, 1)[1].strip())
+        ctx.count("directives:%s:%s" % (kind, r[0]))
+        if self_ref:
+            ctx.count("directives:include-argument-resolving-to-the-url-of-the-text")
+        ctx.nontriv((url,) + tuple(t))
+        if r[0] == "ok":
+            ctx.violate("schema-less loader given the url %r accepted a text holding %r: the directive was silently dropped, str() gives %r"
+                        % (url, d, real_str(r[1])[1]),
+                        {"stream": "directives", "url": url, "lines": t, "directive": d,
+                         "argument_resolves_to_the_url_of_the_text": self_ref, "result": sec_struct(r[1]), "str": real_str(r[1])},
+                        signature="C17:directive-dropped:%s:%s" % (kind, "no-url" if url is None else "self" if self_ref else "url"))
+
+
 def run(ctx):
     obligations, discharged, names = core.standard_prelude(ctx, ["ZCV.Props.C17"])
     shapes = [s for s in c03.SHAPES if "$x" not in s and "${x" not in s]
@@ -232,6 +358,7 @@ def run(ctx):
         if tag.startswith("position") and s1[0] == "ok" and _moved_invisible(t, s1[1]):
             ctx.count("accepted-with-an-invisible-line-start-moved-by-str")
         round_trip(ctx, t, cfg, s1, tag)
+    run_directives(ctx)
     # values that only an environment variable can produce (empty, blank-edged, multi-line): the text format cannot
     # write them back (no quoting) - the listed finding C17-env-values
     import os
